@@ -522,6 +522,10 @@ type PAInput struct {
 	DG1State     string         // alpha-2 of DG1's issuing state ("" when DG1 absent or unknown)
 	DG1Present   bool
 	Store        [][]byte
+	// DG1StateRaw: the issuing-state characters of DG1 when they could be read but name no
+	// country (DG1State is "" then). With it set, PA reports a definite "differs" when the
+	// certificates name an ISO 3166-1 country, and "unknown" otherwise (additive, default off).
+	DG1StateRaw *string
 }
 
 var alpha3to2 = map[string]string{"NLD": "NL", "FRA": "FR", "USA": "US", "GBR": "GB", "NZL": "NZ", "SGP": "SG", "CHE": "CH", "AUS": "AU", "MYS": "MY", "DEU": "DE", "D": "DE"}
@@ -567,6 +571,9 @@ func PA(in PAInput) (ok bool, why string, unknown bool) {
 	}
 	if in.DG1Present {
 		if in.DG1State == "" {
+			if in.DG1StateRaw != nil && IsISOAlpha2(country) {
+				return false, fmt.Sprintf("DG1 issuing state %q names no country (ISO 3166-1 alpha-3 or 'D'), the certificates name %s", *in.DG1StateRaw, country), false
+			}
 			return false, "", true
 		}
 		if !strings.EqualFold(in.DG1State, country) {
